@@ -130,24 +130,25 @@ PENDING_REASON = "not claimed yet: its generated-input check (DESIGN.md section 
 
 # legs added after the seeded-change rounds (DESIGN.md 6.6), appended to the text
 ADDED = {
+ "C04": "the same conversations over the real nfc.clf.udp driver on both sides",
  "C01": "histories of 2..7 operations on one tag object with a fault plan per operation (every returned assignment verified by a fresh activation); Type 4 round trips under one survivable ISO-DEP fault at every block position",
  "C02": "cut sweep of a write that follows a failed write on the same NDEF object; FeliCa Lite/Lite-S with authenticated writers and fresh readers that authenticate first",
  "C03": "the byte-diff / write-address oracle applied to every operation of a history on one tag object (read, format, write, dump); multi-system FeliCa Standard cards",
  "C05": "two application threads sending on one socket (harness-pumped controllers without a pause between dispatch and collect, forced picks at every scheduling point; full stacks with forced preemptions); application threads descheduled in virtual time",
  "C06": "2..5 SNEP requests on one connection; consuming threads descheduled in bursts; multi-record messages with the client leaving after n fragments",
- "C07": "the device under test as connecting client whose receive window a raw peer overruns (with exchange latency); RTOX sequences; maximum-length SDREQ names; link MIU up to 2175",
+ "C07": "the device under test as connecting client whose receive window a raw peer overruns (with exchange latency); RTOX sequences; maximum-length SDREQ names; link MIU up to 2175; a hostile peer that builds its frames from observed transaction ids, SAPs and sequence numbers",
  "C08": "Type 4 card failing at the k-th APDU; length fields overshooting the true room; tags leaving the field during re-activation with the object probed several times; layout-aware capacity/origin oracle for intact layouts",
- "C09": "six more racing calls on an established connection; programs descheduled in virtual time",
+ "C09": "six more racing calls on an established connection; programs descheduled in virtual time; connections dying (FRMR / bad I PDU / DISC / DM) while threads are blocked on them, before termination",
  "C10": "connections ending (close / peer DISC / FRMR) with I PDUs queued while other sockets share the frame",
  "C11": "PDU objects modified through attribute setters in generated orders; aggregates with one member cut short; the differential is exact (any disagreement with the reference is a violation)",
- "C12": "every ATS shape x FSCI 0..8 and Type 4B variants with the card's frame size taken from what it announced",
- "C13": "exchange() racing close/open of another thread over the real drivers; listen-side histories with response / empty / None; surplus payload bytes in well-framed host responses",
+ "C12": "every ATS shape x FSCI 0..8 and Type 4B variants with the card's frame size taken from what it announced; Type4Tag over the eight real drivers and chip receiver models with RF faults the driver has to classify",
+ "C13": "exchange() racing close/open of another thread over the real drivers; listen-side histories with response / empty / None; surplus payload bytes in well-framed host responses; sequences of two host-link faults on the same or consecutive host commands",
  "C14": "the same command object exchanged repeatedly (RF side judged); histories of different target kinds on one driver object with chip models honouring the CRC settings; the SEL_RES value space",
- "C15": "driver close() and other driver calls raising IOError, the proxy driver remembers that it was closed",
- "C16": "histories on one FeliCa Lite/Lite-S, Type 1 and Type 2 tag object with an error burst at every command position (later operations judged too, no answered write repeated); faults at the library's re-activation polls",
- "C17": "two threads running bind-type programs on one controller with the schedule tree walked; connect(name) judged at the API with a stale-name macro",
- "C18": "one connect() over a field whose occupant changes by script (on-connect needs a real activation); empty-list on-startup results; Type 4A tags incl. SEL_RES 60h, a tag the application accepted must reach on-connect",
- "C19": "bursts of small datagrams (aggregates of 3 and more PDUs); 1..9 resolver threads per side at link-up",
+ "C15": "driver close() and other driver calls raising IOError, the proxy driver remembers that it was closed; connect() left by KeyboardInterrupt while another thread is inside a driver call",
+ "C16": "histories on one FeliCa Lite/Lite-S, Type 1 and Type 2 tag object with an error burst at every command position (later operations judged too, no answered write repeated); faults at the library's re-activation polls; error bursts of mixed kinds (reason code of the last attempt)",
+ "C17": "two threads running bind-type programs on one controller with the schedule tree walked; connect(name) judged at the API with a stale-name macro; connected sockets reaching end of life in every order with address / name probes after each close",
+ "C18": "one connect() over a field whose occupant changes by script (on-connect needs a real activation); empty-list on-startup results; Type 4A tags incl. SEL_RES 60h, a tag the application accepted must reach on-connect; Type 1 Tags and tags in the field during llcp-only connects",
+ "C19": "bursts of small datagrams (aggregates of 3 and more PDUs); 1..9 resolver threads per side at link-up; data link connections with receive windows 0..15 set up while near-MIU datagrams are pending",
  "C20": "0..3-operation histories on one Lite/Lite-S object with write counter policies; NDEF reads with one bit of the MAC-protected region flipped; length-changing substitutions of read responses",
 }
 
